@@ -42,6 +42,15 @@ type WCfg struct {
 	Sub  WSub                `dials:"sub"`
 }
 
+// Verify makes some updates invalid so that errors have to travel back
+// through the wrapper (Num -13 is never a default).
+func (c *WCfg) Verify() error {
+	if c.Num == -13 {
+		return ErrInvalid
+	}
+	return nil
+}
+
 // WLayer is what the inner source "finds".
 type WLayer struct {
 	Num      *int     `json:"num,omitempty"`
@@ -263,6 +272,11 @@ func genWLayer(t *rapid.T, n int) WLayer {
 	return l
 }
 
+func makeInvalid(l *WLayer) {
+	v := -13
+	l.Num = &v
+}
+
 func genC20(t *rapid.T) C20Case {
 	c := C20Case{Chain: rapid.IntRange(0, 8).Draw(t, "chain"), ErrAt: -1}
 	c.Inner = rapid.SampledFrom([]string{"static", "watching", "watching", "watching", "value-error", "watch-error"}).Draw(t, "inner")
@@ -270,7 +284,11 @@ func genC20(t *rapid.T) C20Case {
 	if c.Inner == "watching" {
 		n := rapid.IntRange(0, 8).Draw(t, "updates")
 		for i := 0; i < n; i++ {
-			c.Updates = append(c.Updates, genWLayer(t, i+1))
+			u := genWLayer(t, i+1)
+			if rapid.IntRange(0, 3).Draw(t, "invalid") == 0 {
+				makeInvalid(&u)
+			}
+			c.Updates = append(c.Updates, u)
 			c.Blocking = append(c.Blocking, rapid.Bool().Draw(t, "blocking"))
 		}
 		if n > 0 && rapid.IntRange(0, 2).Draw(t, "has_err") == 0 {
@@ -342,6 +360,9 @@ func runC20(c C20Case) (verdict vrt.Verdict) {
 		var mu sync.Mutex
 		var watchedErrs []error
 		params := dials.Params[WCfg]{OnWatchedError: func(_ context.Context, err error, _, _ *WCfg) {
+			if errors.Is(err, ErrInvalid) {
+				return // verification failures are not source errors
+			}
 			mu.Lock()
 			watchedErrs = append(watchedErrs, err)
 			mu.Unlock()
@@ -411,6 +432,7 @@ func runC20(c C20Case) (verdict vrt.Verdict) {
 			fail("the wrapped watcher's Watch was not called")
 			return
 		}
+		lastGood := []WLayer{c.Initial}
 		for i, u := range c.Updates {
 			if i == c.ErrAt {
 				if err := tw.args.ReportError(ctx, errInner); err != nil {
@@ -445,11 +467,35 @@ func runC20(c C20Case) (verdict vrt.Verdict) {
 				e1 = tw.args.ReportNewValue(ctx, tv)
 				e2 = plain.Args.ReportNewValue(ctx, nv)
 			}
+			invalid := u.Num != nil && *u.Num == -13
+			if c.Blocking[i] && !invalid && e1 == nil {
+				// read-your-write: a blocking report that returned nil has been stacked
+				if got := dw.View(); !reflect.DeepEqual(got, wStack([]WLayer{u})) {
+					fail("update %d: BlockingReportNewValue through the wrapper returned nil but the view does not yet hold the value (the wrapper lost the blocking contract)", i)
+					return
+				}
+			}
 			synctest.Wait()
+			if (e1 == nil) != (e2 == nil) {
+				fail("update %d (blocking=%v): report through the wrapper returned %v but the unwrapped reference returned %v: errors must be propagated, not swallowed", i, c.Blocking[i], e1, e2)
+				return
+			}
+			if invalid {
+				if c.Blocking[i] && !errors.Is(e1, ErrInvalid) {
+					fail("update %d: blocking report of an invalid value through the wrapper returned %v, want the verifier's error", i, e1)
+					return
+				}
+				labels = append(labels, "invalid-update")
+				if !compare(fmt.Sprintf("after rejected update %d", i), lastGood) {
+					return
+				}
+				continue
+			}
 			if e1 != nil || e2 != nil {
 				fail("update %d: report through the wrapper returned %v (reference: %v)", i, e1, e2)
 				return
 			}
+			lastGood = []WLayer{u}
 			if !compare(fmt.Sprintf("after update %d (blocking=%v)", i, c.Blocking[i]), []WLayer{u}) {
 				return
 			}
